@@ -99,6 +99,8 @@ def opndOf (pos : Nat) (o : X86.Operand) : Isa.Opnd :=
     key := keyOf pos o
     val := match o with | .imm v => .int v | _ => .none
     off := match o with | .mem off _ _ _ _ => moffOf off | _ => .absent
+    -- a symbolic displacement (`foo(%rip)`): what `kernel_dg.is_memload` compares of the IdentifierOperand (its name)
+    offSym := match o with | .mem (some (.ident n)) _ _ _ _ => 3 :: encTxt n | _ => []
     postVal := .none }
 
 def opndsFrom : Nat → List X86.Operand → List Isa.Opnd
@@ -301,6 +303,10 @@ def opndA64 (pos : Nat) (o : ParseA64.Operand) : Isa.Opnd :=
     key := keyA64 pos o
     val := match o with | .imm (.int v) => .int v | .imm (.flt _ _ _) => .other | _ => .none
     off := match o with | .mem m => moffA64 m.offset | _ => .absent
+    -- a symbolic displacement (`[x2, #:lo12:foo]`): relocation, name and constant offset of the IdentifierOperand
+    offSym := match o with
+      | .mem m => (match m.offset with | some (.ident i) => 2 :: encIdent i | _ => [])
+      | _ => []
     postVal := match o with | .mem m => postValA64 m.post | _ => .none }
 
 def opndsFromA64 : Nat → List ParseA64.Operand → List Isa.Opnd
